@@ -1124,5 +1124,109 @@ theorem assignFromTemp_out (c : Cfg) (hok : c.OK) (i : Nat) (x : Arr) (es : List
   · intro s1 ⟨hfu, hcl⟩
     exact ⟨hfu, by rw [hcl.1], hcl.inv hI, by rw [hcl.1]; exact hW⟩
 
+theorem assignView_spec (c : Cfg) (hok : c.OK) (i j : Nat) (sl : Option (Int × Int)) (lv : Bool) (s : St) (hG : Good c s)
+    (happ : (Op.assignView i j sl lv).applicable c s = true) (hfx : (Op.assignView i j sl lv).fixedIn c = true) :
+    OpSpec c (.assignView i j sl lv) s := by
+  simp only [Op.applicable, Bool.and_eq_true, bne_iff_ne, ne_eq] at happ
+  obtain ⟨⟨hij, hali⟩, hsl⟩ := happ
+  obtain ⟨x, hx⟩ := alive_iff.mp hali
+  cases hy : getArr s j with
+  | none => rw [hy] at hsl; cases hsl
+  | some y =>
+    rw [hy] at hsl
+    have hi := getArr_eq hx
+    have hj := getArr_eq hy
+    have hlti : i < s.arrs.length := (List.getElem?_eq_some_iff.mp hi).1
+    have hle : nElems (viewExts y sl) ≤ y.n := by rw [hG.2 j y hj]; exact nElems_viewExts_le y sl hsl
+    unfold OpSpec
+    show Out (opAssignView c i j sl lv s) _ _ _
+    unfold opAssignView
+    rw [get_bind]
+    simp only [hx, hy]
+    by_cases hsame : extsEq x.ext (viewExts y sl) = true
+    · simp only [hsame, if_true]
+      apply Out.bind (readSrc_out (Q := fun _ => False) c j _ y s hG.1 hj hle) _ (fun _ h => h.elim)
+      intro _ s1 h1; subst h1
+      apply Out.mono (assignOwn_out (T := s1.fuel ≠ none ∧ (Op.assignView i j sl lv).isSaMove = true) c i x.n x s1 hG.1 hi (Nat.le_refl _)) _ _ id
+      · intro _ s' ⟨h1, h2, h3, h4⟩
+        exact ⟨⟨h1, by rw [h3]; exact hG.2⟩, h2, by rw [h3], fun _ => h4, trivial⟩
+      · intro s' ⟨h1, h2, h3⟩
+        exact ⟨h1, by rw [h3], h2, by rw [h3]; exact hG.2⟩
+    · simp only [hsame, Bool.false_eq_true, if_false]
+      by_cases hresh : (!lv && decide (x.n = nElems (viewExts y sl))) = true
+      · simp only [hresh, if_true]
+        have hxn : x.n = nElems (viewExts y sl) := by
+          simp only [Bool.and_eq_true, decide_eq_true_eq] at hresh; exact hresh.2
+        apply Out.bind (setSlot_out i (some { x with ext := reported (viewExts y sl) }) s) _ (fun _ h => h)
+        intro _ s1 h1
+        have hI1 : InvS c s1 := by
+          show Inv c s1.blocks s1.arrs
+          rw [h1.blocks, h1.arrs]; exact Inv.relabel hG.1 hi rfl rfl
+        have hW1 : Wn s1.arrs := by
+          rw [h1.arrs]
+          exact hG.2.set (fun z hz => by cases hz; show x.n = nElems (reported (viewExts y sl)); rw [nElems_reported, hxn])
+        have hi1 : s1.arrs[i]? = some (some { x with ext := reported (viewExts y sl) }) := by
+          rw [h1.arrs]; exact List.getElem?_set_self hlti
+        have hj1 : s1.arrs[j]? = some (some y) := by rw [h1.arrs, List.getElem?_set_ne hij]; exact hj
+        apply Out.bind (readSrc_out (Q := fun _ => False) c j _ y s1 hI1 hj1 hle) _ (fun _ h => h.elim)
+        intro _ s2 h2; subst h2
+        apply Out.mono (assignOwn_out (T := s.fuel ≠ none ∧ (Op.assignView i j sl lv).isSaMove = true) c i x.n
+          { x with ext := reported (viewExts y sl) } s2 hI1 hi1 (Nat.le_refl _)) _ _ id
+        · intro _ s' ⟨h3, h4, h5, h6⟩
+          refine ⟨⟨h3, by rw [h5]; exact hW1⟩, fun h => h4 (h1.fuel h), by rw [h5, h1.arrs, List.length_set], ?_, trivial⟩
+          intro _ hA
+          apply h6
+          show InvA c s2.blocks s2.arrs
+          rw [h1.blocks, h1.arrs]
+          exact InvA.relabel hA hi rfl rfl (fun b blk hn hb hB hf => hA.ownerEq i x b blk hi hn hb hB hf)
+        · intro s' ⟨h3, h4, h5⟩
+          exact ⟨h1.armed h3, by rw [h5, h1.arrs, List.length_set], h4, by rw [h5]; exact hW1⟩
+      · simp only [hresh, Bool.false_eq_true, if_false]
+        apply Out.bind (readSrc_out (Q := fun _ => False) c j _ y s hG.1 hj hle) _ (fun _ h => h.elim)
+        intro _ s1 h1; subst h1
+        apply Out.mono (assignFromTemp_out (T := s1.fuel ≠ none ∧ (Op.assignView i j sl lv).isSaMove = true) c hok i x _ 0 s1 hG hi hfx) _
+          (fun _ h => h) id
+        intro _ s' ⟨h1, h2, h3, h4⟩
+        refine ⟨h1, h2, h3, ?_, trivial⟩
+        intro haff
+        apply h4
+        simp only [Op.affectedA, Bool.not_eq_false'] at haff
+        exact haff
+
+theorem assignRange_spec (c : Cfg) (hok : c.OK) (i j : Nat) (s : St) (hG : Good c s)
+    (happ : (Op.assignRange i j).applicable c s = true) (hfx : (Op.assignRange i j).fixedIn c = true) :
+    OpSpec c (.assignRange i j) s := by
+  simp only [Op.applicable, Bool.and_eq_true, bne_iff_ne, ne_eq] at happ
+  obtain ⟨⟨hij, hali⟩, halj⟩ := happ
+  obtain ⟨x, hx⟩ := alive_iff.mp hali
+  obtain ⟨y, hy⟩ := alive_iff.mp halj
+  have hi := getArr_eq hx
+  have hj := getArr_eq hy
+  unfold OpSpec
+  show Out (opAssignRange c i j s) _ _ _
+  unfold opAssignRange
+  rw [get_bind]
+  simp only [hx, hy]
+  by_cases hsame : rangeInPlace x y = true
+  · simp only [hsame, if_true]
+    apply Out.bind (readSrc_out (Q := fun _ => False) c j _ y s hG.1 hj (Nat.le_refl _)) _ (fun _ h => h.elim)
+    intro _ s1 h1; subst h1
+    apply Out.mono (assignOwn_out (T := s1.fuel ≠ none ∧ (Op.assignRange i j).isSaMove = true) c i x.n x s1 hG.1 hi (Nat.le_refl _)) _ _ id
+    · intro _ s' ⟨h1, h2, h3, h4⟩
+      exact ⟨⟨h1, by rw [h3]; exact hG.2⟩, h2, by rw [h3], fun _ => h4, trivial⟩
+    · intro s' ⟨h1, h2, h3⟩
+      exact ⟨h1, by rw [h3], h2, by rw [h3]; exact hG.2⟩
+  · simp only [hsame, Bool.false_eq_true, if_false]
+    apply Out.bind (readSrc_out (Q := fun _ => False) c j _ y s hG.1 hj (Nat.le_refl _)) _ (fun _ h => h.elim)
+    intro _ s1 h1; subst h1
+    apply Out.mono (assignFromTemp_out (T := s1.fuel ≠ none ∧ (Op.assignRange i j).isSaMove = true) c hok i x _ _ s1 hG hi hfx) _
+      (fun _ h => h) id
+    intro _ s' ⟨h1, h2, h3, h4⟩
+    refine ⟨h1, h2, h3, ?_, trivial⟩
+    intro haff
+    apply h4
+    simp only [Op.affectedA, Bool.not_eq_false'] at haff
+    exact haff
+
 end Ledger
 end Multi
